@@ -120,11 +120,19 @@ func VH_C16_unsafe(caseID int) {
 	app.Use(New(cfg))
 	ran := 0
 	app.All("/", func(c fiber.Ctx) error { ran++; return c.SendStatus(200) })
+	app.Post("/logout", func(c fiber.Ctx) error {
+		h := HandlerFromContext(c)
+		if h == nil {
+			return c.SendStatus(500)
+		}
+		return h.DeleteToken(c)
+	})
 
+	target := "/"
 	do := func(method string, hdr [][2]string, cookie string) *fasthttp.RequestCtx {
 		fctx := &fasthttp.RequestCtx{}
 		fctx.Request.Header.SetMethod(method)
-		fctx.Request.SetRequestURI("/")
+		fctx.Request.SetRequestURI(target)
 		fctx.Request.Header.SetHost("h.io")
 		if https {
 			fctx.Request.Header.Set("X-Forwarded-Proto", "https")
@@ -166,7 +174,7 @@ func VH_C16_unsafe(caseID int) {
 			// instant it is reached; the boundary instant is left out for this backend
 			gap = 11
 		}
-		pre = vChoice("pre", 2) // 1: the token is used once before
+		pre = vChoice("pre", 3) // 1: the token is used once before; 2: the token is deleted (logout)
 	}
 	if cc.session {
 		vAdvanceReal(gap) // this backend reads time.Now: a native replay has to wait
@@ -174,16 +182,22 @@ func VH_C16_unsafe(caseID int) {
 		vAdvance(gap)
 	}
 	live := gap < 10
-	if pre == 1 {
+	if pre >= 1 {
 		sch := "http"
 		if https {
 			sch = "https"
 		}
+		if pre == 2 {
+			target = "/logout"
+		}
 		fp := do("POST", [][2]string{{"X-Csrf-Token", issued}, {"Origin", sch + "://h.io"}}, issued)
+		target = "/"
 		if live {
 			vAssert(fp.Response.StatusCode() == 200, "valid-token-accepted")
-			if cc.singleUse {
+			if cc.singleUse || pre == 2 {
+				// consumed, or deleted by the application: never valid again
 				live = false
+				vReach("token-removed")
 			}
 		}
 	}
